@@ -6,12 +6,13 @@ PROP = {
     "coq_targets": ["theories/Lift/C06Check"],
     "n": {"quick": int(_os.environ.get("C06_N", "640")), "thorough": 16000},   # C06_N: smaller runs for sensitivity experiments
     "theorems": ["lang_bisim_sound", "bisim_from_sound", "lang_prefix_closed", "lang_eq_feasible", "lang_bisim_exec", "lang_bisim_exec_sem", "recover_names_ok", "lang_eq_exec_sem", "sem_pexec_link", "recover_once", "recover_struct_once", "merge_flang", "recover_full_lang", "recover_graph_spec", "recover_entry_block", "recover_lang_partial", "lang_eq_exec_sem_lang", "recover_executes_like_machine_code"],
-    "rule": "11 + 8 hand-written regression programs, then random machine-code programs, one xoshiro256** stream per (seed,index): "
+    "rule": "11 + 10 hand-written regression programs, then random machine-code programs, one xoshiro256** stream per (seed,index): "
             "toy fixed-width ISA (add / three-block conditional add / jmp / jcc with both successor orders / halt / indirect jump) of "
             "1-70 instructions (60% 17-40) at every alignment of the base modulo 64, control-transfer density 3/8/20/40%, "
             "targets uniform over the program (self, next, past-the-end included), 15% unmapped holes, entry inside the program in 40%, "
-            "1-3 manual edges in 25% (head a control transfer in 3/4 of them); MIPS and x86 byte programs from hand-encodable "
-            "instructions drive the real block translators. "
+            "1-3 manual edges in 25% (head a control transfer in 3/4 of them); MIPS and x86 byte programs drive the real block translators with every direct "
+            "control-transfer mnemonic they terminate blocks on (MIPS 15, x86 42 incl. rel8/rel32 jcc, jecxz/jcxz, loop*, jmp, call, ret, hlt); "
+            "the isolated lifts must agree with the harness's own decoder table. "
             "non-trivial = the recovered function has at least 3 blocks; distinct by hash of the program text",
     "trusted_base": [KERNEL, HARNESS_TB,
                      "the harness's own instruction decoder (reachability, instruction lengths) and the isolated single-instruction lifts "
